@@ -16,7 +16,10 @@ LEAN = VERIF / "lean"
 HARNESS = VERIF / "harness"
 # VERIF_EVIDENCE_DIR: where evidence files go (default /verif/evidence). tools/seeded_run.py points it at a scratch
 # directory so that runs against a deliberately broken tree never overwrite the committed evidence of the unchanged tree.
-EVIDENCE = Path(os.environ.get("VERIF_EVIDENCE_DIR") or (VERIF / "evidence"))
+# A run against any tree other than /repo (VERIF_REPO=<scratch worktree with a mutation>) never writes /verif/evidence either:
+# without VERIF_EVIDENCE_DIR it goes to replays/evidence-nonrepo/.
+EVIDENCE = Path(os.environ.get("VERIF_EVIDENCE_DIR") or
+                ((VERIF / "evidence") if REPO.resolve() == Path("/repo") else (VERIF / "replays" / "evidence-nonrepo")))
 REPLAYS = VERIF / "replays"
 CORPUS = VERIF / "corpus"
 NCPU = os.cpu_count() or 4
@@ -48,13 +51,17 @@ SAN = ["-fsanitize=address,undefined", "-fno-sanitize-recover=all", "-fno-omit-f
 GUARD = "AGENTD_SQUASHFS_TOOLS_NG_VERIF"
 
 
-def repo_lib_sources(serial_pool=False):
+def repo_lib_sources(serial_pool=False, custom_alloc=False):
+    """custom_alloc=True: the configuration /repo's own configure builds by default (pool allocator: mempool.c is
+    compiled and NO_CUSTOM_ALLOC is not defined); the default here is the plain-malloc configuration, which lets
+    the sanitizers see every allocation."""
     out = []
     for p in sorted((REPO / "lib").rglob("*.c")):
         rel = p.relative_to(REPO).as_posix()
         if "/test/" in rel:
             continue
-        if rel in LIB_EXCLUDE and not (serial_pool and rel.endswith("threadpool_serial.c")):
+        if rel in LIB_EXCLUDE and not (serial_pool and rel.endswith("threadpool_serial.c")) \
+                and not (custom_alloc and rel.endswith("util/src/mempool.c")):
             continue
         if serial_pool and rel.endswith("util/src/threadpool.c"):
             continue
@@ -262,14 +269,16 @@ class Ctx:
             raise CheckFailure("harness compile failed: %s\n%s" % (" ".join(cmd), r.stderr[-4000:]))
         return self.scratch / out
 
-    def build_lib(self, tag="san", flags=(), sanitize=True, serial_pool=False, exclude=(), opt="-O1"):
-        """compile every library source of /repo's working tree into scratch/<tag>/lib.a (parallel)"""
+    def build_lib(self, tag="san", flags=(), sanitize=True, serial_pool=False, exclude=(), opt="-O1", custom_alloc=False):
+        """compile every library source of /repo's working tree into scratch/<tag>/lib.a (parallel).
+        custom_alloc=True builds /repo's default configuration (pool allocator, see repo_lib_sources); use a tag of its own."""
         if tag in self._libcache:
             return self._libcache[tag]
         d = self.scratch / tag
         d.mkdir(exist_ok=True)
-        srcs = [s for s in repo_lib_sources(serial_pool) if s not in exclude]
-        base = ["gcc", opt, "-g", "-w", "-c", "-D%s" % GUARD] + (SAN if sanitize else []) + include_flags() + BASE_DEFS + list(flags)
+        srcs = [s for s in repo_lib_sources(serial_pool, custom_alloc) if s not in exclude]
+        defs = [x for x in BASE_DEFS if not (custom_alloc and x == "-DNO_CUSTOM_ALLOC")]
+        base = ["gcc", opt, "-g", "-w", "-c", "-D%s" % GUARD] + (SAN if sanitize else []) + include_flags() + defs + list(flags)
         if serial_pool:
             base.append("-DNO_THREAD_IMPL")
         procs, objs = [], []
@@ -291,16 +300,17 @@ class Ctx:
         self._libcache[tag] = lib
         return lib
 
-    def build_tool(self, tool, tag="san", flags=(), sanitize=True, serial_pool=False, extra_objs=(), ldflags=()):
+    def build_tool(self, tool, tag="san", flags=(), sanitize=True, serial_pool=False, extra_objs=(), ldflags=(), custom_alloc=False):
         """link one of the CLI tools from the working tree against build_lib(tag)"""
-        lib = self.build_lib(tag, flags, sanitize, serial_pool)
+        lib = self.build_lib(tag, flags, sanitize, serial_pool, custom_alloc=custom_alloc)
         out = self.scratch / tag / tool
         if out.exists():
             return out
         tflags, tlibs = [], []
         if tool == "gensquashfs" and os.path.exists("/usr/include/selinux/selinux.h"):
             tflags, tlibs = ["-DWITH_SELINUX"], ["-lselinux"]          # as in /repo's own configured build
-        cmd = ["gcc", "-O1", "-g", "-w", "-D%s" % GUARD] + (SAN if sanitize else []) + include_flags() + BASE_DEFS + tflags + list(flags) \
+        defs = [x for x in BASE_DEFS if not (custom_alloc and x == "-DNO_CUSTOM_ALLOC")]
+        cmd = ["gcc", "-O1", "-g", "-w", "-D%s" % GUARD] + (SAN if sanitize else []) + include_flags() + defs + tflags + list(flags) \
             + [str(REPO / s) for s in tool_sources(tool)] + list(extra_objs) + [str(lib)] + CODEC_LIBS + tlibs + list(ldflags) + ["-o", str(out)]
         r = sh(cmd)
         if r.returncode != 0:
@@ -356,7 +366,7 @@ class Ctx:
         ev = {"property_id": self.prop, "tier": self.tier, "seed": self.seed, "level": level, "coverage": cov,
               "assumptions": list(assumptions) + self.assumptions, "wall_s": round(time.time() - self.t0, 2),
               "violations": len(self.violations)}
-        EVIDENCE.mkdir(exist_ok=True)
+        EVIDENCE.mkdir(parents=True, exist_ok=True)
         (EVIDENCE / ("%s.json" % self.prop)).write_text(json.dumps(ev, indent=1, default=str) + "\n")
         if self.violations:
             print("%s: %d violation(s)" % (self.prop, len(self.violations)))
